@@ -549,6 +549,10 @@ def sqrt_w(x, tag='sqrt'):
     c.fact(z3.And(r.t >= 0, r.t * r.t == zreal(x)))
     c.witness[key] = r
     c.keep.append(zreal(x))
+    if not hasattr(c, 'wdefs'):
+        c.wdefs = {}
+    c.wdefs[r.t.get_id()] = ('sqrt', zreal(x))
+    c.keep.append(r.t)
     return r
 
 
